@@ -19,7 +19,7 @@ compile and the proof obligation breaks):
                match s { pat => block | tail, ... }   followed by more statements
                return e;      return self.f(args);   (f the function itself: recursion, on fuel)
                name!(...);                      logging / assertion macros: skipped
-               x = e;   self.f.g = e;   self.f.g += e;    rebindings (of a local, of a nested field)
+               x = e;   x += e;   x -= e;   x.truncate(n);   self.f.g = e;   self.f.g += e;    rebindings
                if c { block }                   (no else, followed by more statements)
                let pat = match s { .. };        arms give the value, or `return`
                let pat = if let p = e { .. } else { .. };
@@ -28,7 +28,8 @@ compile and the proof obligation breaks):
                if c { block } else { block }    as a statement
   tail         match s { pat => tail | block , ... }
                if c { block } else { block }            a pure expression
-  conditions c a == b, a < b, a > b, a <= b, a >= b, x.is_empty(), a bool field or variable, !c, c || c, c && c
+  conditions c a == b, a < b, a > b, a <= b, a >= b, x.is_empty(), a bool field / variable / external
+               method (x.is_char_boundary(n)), !c, c || c, c && c
   scrutinee s  e | e? | self.f.take()
   patterns     _  [mut] x  0  None  Some(p)  Path::Ctor(p, ..)  Path::Ctor  (p, q)  p | q (no bindings)
   expressions  integer literals, (), variables, x.f, self.f, e as T (casts are dropped: see below),
@@ -257,12 +258,19 @@ class Parser:
                 body = self.block()
                 stmts.append(("while", ("true",), body))
                 continue
-            # x += e;
-            if re.match(r"[a-z_][a-z0-9_]*$", tok) and tok not in ("self", "match", "if", "let", "return") and self.peek(1) == "+" and self.peek(2) == "=":
-                x = self.eat(); self.eat("+"); self.eat("=")
+            # x += e;   x -= e;
+            if re.match(r"[a-z_][a-z0-9_]*$", tok) and tok not in ("self", "match", "if", "let", "return") and self.peek(1) in ("+", "-") and self.peek(2) == "=":
+                x = self.eat(); op = self.eat(); self.eat("=")
                 e = self.expr()
                 self.eat(";")
-                stmts.append(("assign", x, ("add", ("var", x), e)))
+                stmts.append(("assign", x, ("add" if op == "+" else "sub", ("var", x), e)))
+                continue
+            # x.truncate(n);
+            if self.peek(1) == "." and self.peek(2) == "truncate" and self.peek(3) == "(":
+                x = self.eat(); self.eat("."); self.eat("truncate"); self.eat("(")
+                n = self.expr()
+                self.eat(")"); self.eat(";")
+                stmts.append(("assign", x, ("slice_to", ("var", x), n)))
                 continue
             # x = e;   (a local rebinding)
             if re.match(r"[a-z_][a-z0-9_]*$", tok) and tok not in ("self", "match", "if", "let", "return") and self.peek(1) == "=":
@@ -680,6 +688,8 @@ class Gen:
             return "(VC \"closure\" [%s])" % "; ".join(env[n] for n in x[1] if n in env)
         if k == "add":
             return "(v_add %s %s)" % (self.e(x[1], env), self.e(x[2], env))
+        if k == "sub":
+            return "(v_sub %s %s)" % (self.e(x[1], env), self.e(x[2], env))
         if k == "callval":
             f = x[1]
             name, cur = [], f
@@ -764,7 +774,7 @@ class Gen:
         x = c[1]
         if x[0] == "method" and x[2] == "is_empty" and not x[3]:
             return "(v_is_empty %s)" % self.e(x[1], env)
-        if x[0] in ("field", "var"):
+        if x[0] in ("field", "var", "method"):
             return "(v_is_true %s)" % self.e(x, env)
         raise Fail("condition %r" % (c,))
 
